@@ -97,7 +97,7 @@ CLAIMED = {
              'the code may look at the stack only through last(); the result is the stack in order; segments() yields the segments in order (C12) — so normalized_segments() is the specified sequence, by induction. '
              '(b) The in-place rewrite: its collecting loop appends "/" exactly before every segment but the first and then exactly that segment\'s bytes (every CFG path of one iteration), so the text written is shield ++ join(sequence, "/"); '
              'over ALL buffers the result is a valid value of the same type, its decomposition is "path = rewritten window, every other component unchanged" (marked-language inclusion), absolute stays absolute and relative stays relative, '
-             'the "./" shield is written exactly in the documented cases, window accounting and exact tiling hold; all entry points (normalize, Path ==/cmp/hash) go through the one normalising iterator. (c) The normalised COPY (PathImpl::normalized) is decided in either of two forms. As a REWRITE (the form of the repaired tree): Engine S executes it with the LAST segment of self as the text under analysis (all byte strings; last() also answers None), the copy and its handle opaque: the value returned is the copy of self, normalised in place exactly once before anything else (the in-place rules above), and the EMPTY segment is pushed exactly when the last segment is "." or ".." and the normalised copy is not empty (the trailing "/" RFC 3986 5.2.4 leaves). As a FOLD of segments() through symbolic_push (the form before the repair): start from the EMPTY path of the kind of self, every item in order, flag of the last step, guarded final push — and the step must not leave out an empty segment on an empty path unless the fold excludes that case (this is how F12 is reported). Every public in-place entry point (PathMut::normalize and PathBuf::normalize of both families) reaches PathMutImpl::normalize not through the copy.',
+             'the "./" shield is written exactly in the documented cases, window accounting and exact tiling hold; all entry points (normalize, Path ==/cmp/hash) go through the one normalising iterator. (c) The normalised COPY (PathImpl::normalized) is decided in either of two forms. As a REWRITE (the form of the repaired tree): Engine S executes it with the LAST segment of self as the text under analysis (all byte strings; last() also answers None), the copy and its handle opaque: the value returned is the copy of self, normalised in place exactly once before anything else (the in-place rules above), and the EMPTY segment is pushed exactly when the last segment is "." or ".." and the normalised copy is not empty (the trailing "/" RFC 3986 5.2.4 leaves). As a FOLD of segments() through symbolic_push (the form before the repair): start from the EMPTY path of the kind of self, every item in order, flag of the last step, guarded final push — and the step must not leave out an empty segment on an empty path unless the fold excludes that case (this is how F12 is reported). Every public in-place entry point (PathMut::normalize and PathBuf::normalize of both families) reaches PathMutImpl::normalize not through the copy. The three layers of the normalised-segment iterator forward next / next_back / size_hint unchanged (what a caller sees from either end is the computed sequence).',
         design_ref='DESIGN.md §3 Engine D (D1–D3), §4 C09, §10.13, §10.15',
         note='NOT decided: idempotence as an equality of values, the spill paths of the inline buffers. The induction step '
              '(fold = specification when the steps agree) is the usual one and is not mechanised. Genuine defects F5 (no shield in normalize) and F12 (normalized() dropped an empty segment that becomes the first one) were repaired by fix: commits.',
@@ -109,7 +109,7 @@ CLAIMED = {
         text='Claimed in part. All 51 symbolic paths of PathMutImpl::{push, pop, clear, normalize}, in place (window = path span of any enclosing buffer) and stand-alone, are explored with affine values: '
              'Δ(self.end) equals the net length change of the splices, start is fixed, every splice lies inside [start, end] (so scheme/authority before and query/fragment after are never touched), '
              'holes are tiled exactly, no usize subtraction underflows (pop\'s backward loop keeps its index in the window) — an inductive invariant, hence it holds over any sequence of edits through one handle. '
-             'Handle wiring (find_path window, follows_authority from find_authority), composites without own splices, family twins. Language level (Engine D3, virtual cut markers for positions '
+             'Handle wiring (find_path window; follows_authority = find_authority(&buffer[..start], 0), the prefix before the path), what Deref hands out is exactly buffer[start..end], composites without own splices, the tail rule of the two public symbolic_push wrappers, family twins. Language level (Engine D3, virtual cut markers for positions '
              'inside the path): after push / pop / clear the decomposition of the enclosing buffer is "path = edited window, every other component unchanged" and an absolute path stays absolute, a relative one relative. Text-level list semantics: on every symbolic path the splice of push / pop / clear is one of the shapes of a fixed table (push: the segment — behind "/" when the path is non-empty, behind a "./" shield where documented — is written at the END of the path; pop: everything from the "/" its backward search stopped at, or the whole content of a single-segment path, is removed, or ".." is appended in the documented cases; clear: the content after a leading "/" is removed), and the search of pop starts at the last byte and only moves down (so that "/" is the last one). Directory meaning: symbolic_push is executed abstractly over ALL segment strings (Engine S) with an opaque handle: "." calls nothing and returns true, ".." calls pop once and returns true, any other segment is pushed once, unchanged, and returns false; symbolic_append hands every item of its argument, in order, to symbolic_push and then pushes the EMPTY segment exactly when the last flag was true and the path is not empty.',
         design_ref='DESIGN.md §3 Engine D (D1–D4), §4 C10, §10.14',
         note='NOT decided: the decoded segment sequence after a history of edits (obtained by composing the per-operation facts with C12: an argument in DESIGN.md §10.14, not a check). Genuine defects F9 (push of an empty segment after a trailing "./" underflowed) and F10 (push/pop on the empty path after an authority '
